@@ -6,11 +6,18 @@
 (*   uniform kinds : the sample is lo + u (hi - lo)   (scaled comparison, tol units)        *)
 (*   gaussian kinds: the sample lies in the bracket given by the monotone table Z, is       *)
 (*                   symmetric about the mean (j2 = UD - j1 pairs) and monotone in u        *)
+(* e.op = "tail": the same pair of calls at two points of the tail ladder (u = 2^-k1 / 1 - 2^-k1, ...):  *)
+(*   [.., s1, k1, s2, k2, ..]; gaussian kinds within gtol of the ladder table, strictly monotone,       *)
+(*   mirror pairs sum to 2 mean; uniform kinds exact for k <= 10, else inside [lo, lo + w/2^10] etc.    *)
+(* e.op = "deliver": one real Optimizer.update_model([prior.sample(j1/UD)]) on a parameter in e.mode   *)
+(*   with that prior attached; lin = round(received*S), log = round(log10(received)*S) (has* = the      *)
+(*   reading exists); the reading named by Deliver(prior, mode, .) must be the specification's sample.  *)
 (* Stateless stream: the step always advances, rejected events are printed as <<"BAD",..>>. *)
 EXTENDS Priors, IOUtils, TLCExt
 VARIABLE l
 TraceLog == ndJsonDeserialize(IOEnv.TRACE_FILE)
 MCZ == ndJsonDeserialize(IOEnv.PRIORS_Z_FILE)[1].z
+MCZT == ndJsonDeserialize(IOEnv.PRIORS_Z_FILE)[1].zt
 
 Rq(x) == R(x[1], x[2])
 \* grid cell of u = j/UD on the Z grid: floor and ceiling of u * UN
@@ -24,7 +31,7 @@ InBracket(m, S, p, j, UD, tol) ==
 GeS(m, S, r, tol) == m * r[2] >= r[1] * S - tol * r[2]
 LeS(m, S, r, tol) == m * r[2] <= r[1] * S + tol * r[2]
 
-Why(e) ==
+WhyPair(e) ==
     LET p  == [kind |-> e.kind, a |-> Rq(e.a), b |-> Rq(e.b)]
         u1 == R(e.j1, e.UD)   u2 == R(e.j2, e.UD)
     IN  IF e.bad THEN "finite_in_support"        \* NaN / infinite / far outside every support: nothing else is evaluated
@@ -39,6 +46,46 @@ Why(e) ==
              THEN "inverse_cdf_gaussian"
         ELSE IF e.j2 = e.UD - e.j1 /\ ~Close(e.m1 + e.m2, e.S, RMul(Q(2), p.a), 2 * e.tol) THEN "gaussian_symmetric"
         ELSE "ok"
+
+\* ---- tail ladder
+UniTailOk(m, S, p, pt, tol) ==
+    LET w == RSub(p.b, p.a)
+        eps == RDiv(w, Q(Pow(2, IF pt.k <= 10 THEN pt.k ELSE 10)))
+    IN  IF pt.k <= 10 THEN Close(m, S, IF pt.side = "lo" THEN RAdd(p.a, eps) ELSE RSub(p.b, eps), tol)
+        ELSE IF pt.side = "lo" THEN GeS(m, S, p.a, tol) /\ LeS(m, S, RAdd(p.a, eps), tol)
+        ELSE GeS(m, S, RSub(p.b, eps), tol) /\ LeS(m, S, p.b, tol)
+WhyTail(e) ==
+    LET p   == [kind |-> e.kind, a |-> Rq(e.a), b |-> Rq(e.b)]
+        pt1 == [side |-> e.s1, k |-> e.k1]
+        pt2 == [side |-> e.s2, k |-> e.k2]
+        uni == p.kind \in UniKinds
+    IN  IF ~(IsTailPt(pt1) /\ IsTailPt(pt2)) THEN "tail_unknown_point"
+        ELSE IF e.bad THEN "tail_finite"
+        ELSE IF PtLt(pt1, pt2) /\ ~(IF uni THEN e.m1 <= e.m2 ELSE e.m1 < e.m2) THEN "tail_monotone"
+        ELSE IF PtLt(pt2, pt1) /\ ~(IF uni THEN e.m1 >= e.m2 ELSE e.m1 > e.m2) THEN "tail_monotone"
+        ELSE IF uni THEN
+             IF UniTailOk(e.m1, e.S, p, pt1, e.tol) /\ UniTailOk(e.m2, e.S, p, pt2, e.tol) THEN "ok"
+             ELSE "tail_inverse_cdf_uniform"
+        ELSE IF ~(Close(e.m1, e.S, TailSample(p, pt1), e.gtol) /\ Close(e.m2, e.S, TailSample(p, pt2), e.gtol))
+             THEN "tail_inverse_cdf_gaussian"
+        ELSE IF e.k1 = e.k2 /\ e.s1 # e.s2 /\ ~Close(e.m1 + e.m2, e.S, RMul(Q(2), p.a), 2 * e.tol) THEN "tail_symmetric"
+        ELSE "ok"
+\* ---- delivery through update_model
+WhyDeliver(e) ==
+    LET p    == [kind |-> e.kind, a |-> Rq(e.a), b |-> Rq(e.b)]
+        u1   == R(e.j1, e.UD)
+        want == Deliver(p, e.mode, Q(0)).sp
+        has  == IF want = "pow10" THEN e.hasg ELSE e.hasl
+        m    == IF want = "pow10" THEN e.log ELSE e.lin
+    IN  IF ~has THEN "delivered_to_model"
+        ELSE IF p.kind \in UniKinds
+             THEN IF Close(m, e.S, RAdd(p.a, RMul(u1, RSub(p.b, p.a))), e.tol) THEN "ok" ELSE "delivered_to_model"
+        ELSE IF InBracket(m, e.S, p, e.j1, e.UD, e.gtol) THEN "ok" ELSE "delivered_to_model"
+
+Why(e) == CASE e.op = "pair" -> WhyPair(e)
+            [] e.op = "tail" -> WhyTail(e)
+            [] e.op = "deliver" -> WhyDeliver(e)
+            [] OTHER -> "unknown_op"
 
 Init == l = 1
 Step == /\ l <= Len(TraceLog)
